@@ -116,6 +116,105 @@ func init() {
 		} else {
 			fail("var extractStyleCondFuncs")
 		}
+		// every index / slice expression of the read-side files whose index is taken from a struct field
+		// (`a[x.F]`, `a[*x.F]`, `a[x.F-1]`, `a[:x.F]`): the syntactic shape of "indexed by a decoded value".
+		// Emitted as "file:function: expression"; Props/C14.lean pins the whole table and says for each entry
+		// which theorem or guard covers it, so a new such site must be reviewed.
+		{
+			readFiles := []string{"excelize.go", "lib.go", "crypt.go", "rows.go", "col.go", "cell.go", "sheet.go", "styles.go", "merge.go",
+				"drawing.go", "picture.go", "vml.go", "table.go", "pivotTable.go", "calcchain.go", "workbook.go", "docProps.go", "datavalidation.go", "slicer.go", "sparkline.go", "shape.go", "chart.go"}
+			var sites, slices []string
+			// is the indexed operand a map? package-level map literals, locals made as maps, *Map fields
+			isMap := func(fd *ast.FuncDecl, base ast.Expr) bool {
+				switch b := base.(type) {
+				case *ast.Ident:
+					if e := constExpr(b.Name); e != nil {
+						if cl, ok := e.(*ast.CompositeLit); ok {
+							_, m := cl.Type.(*ast.MapType)
+							return m
+						}
+					}
+					isM := false
+					ast.Inspect(fd.Body, func(n ast.Node) bool {
+						if as, ok := n.(*ast.AssignStmt); ok && len(as.Lhs) >= 1 && len(as.Rhs) == 1 {
+							if id, ok := as.Lhs[0].(*ast.Ident); ok && id.Name == b.Name {
+								r := c14Norm(src(as.Rhs[0]))
+								if strings.HasPrefix(r, "make(map[") || strings.HasPrefix(r, "map[") {
+									isM = true
+								}
+							}
+						}
+						return true
+					})
+					return isM
+				case *ast.SelectorExpr:
+					return strings.HasSuffix(b.Sel.Name, "Map")
+				case *ast.CallExpr:
+					return true // presets returned by a function: keyed by API options
+				}
+				return false
+			}
+			writer := func(name string) bool {
+				for _, p := range []string{"add", "Add", "draw", "new", "New", "Set", "set", "Delete", "delete", "encrypt", "currency", "getNumFmtID", "getChartOptions", "getPivotTableFieldsNumFmtID"} {
+					if strings.HasPrefix(name, p) {
+						return true
+					}
+				}
+				return false
+			}
+			hasField := func(e ast.Expr) bool {
+				found := false
+				ast.Inspect(e, func(n ast.Node) bool {
+					if se, ok := n.(*ast.SelectorExpr); ok {
+						if id, ok := se.X.(*ast.Ident); !ok || (id.Name != "math" && id.Name != "aes" && id.Name != "sha1") {
+							found = true
+						}
+					}
+					if _, ok := n.(*ast.CallExpr); ok {
+						return false // len(x.F), f(x.F): not a raw field
+					}
+					return !found
+				})
+				return found
+			}
+			for _, fn := range readFiles {
+				f := files[fn]
+				if f == nil {
+					continue
+				}
+				for _, d := range f.Decls {
+					fd, ok := d.(*ast.FuncDecl)
+					if !ok || fd.Body == nil {
+						continue
+					}
+					name := fd.Name.Name
+					ast.Inspect(fd.Body, func(n ast.Node) bool {
+						switch x := n.(type) {
+						case *ast.IndexExpr:
+							if _, isMapLit := x.X.(*ast.CompositeLit); !isMapLit && hasField(x.Index) {
+								sites = append(sites, fn+":"+name+": "+c14Norm(src(x)))
+								if !isMap(fd, x.X) && !writer(name) {
+									slices = append(slices, fn+":"+name+": "+c14Norm(src(x)))
+								}
+							}
+						case *ast.SliceExpr:
+							for _, b := range []ast.Expr{x.Low, x.High} {
+								if b != nil && hasField(b) {
+									sites = append(sites, fn+":"+name+": "+c14Norm(src(x)))
+									if !writer(name) {
+										slices = append(slices, fn+":"+name+": "+c14Norm(src(x)))
+									}
+									break
+								}
+							}
+						}
+						return true
+					})
+				}
+			}
+			c14List(w, "fieldIndexSites", sites)
+			c14List(w, "fieldIndexSitesSlices", slices)
+		}
 		// ReadZipReader: the size accounting must precede the spill-to-disk branches
 		if fd := funcDecl("File", "ReadZipReader"); fd != nil && fd.Body != nil {
 			conds, _, _ := c14Collect("File", "ReadZipReader")
